@@ -55,7 +55,7 @@ def run(ctx):
                 ctx.ob("R1", "byte-switch", False, "in -0/-d mode an input byte is dispatched on constants %s (quote/escape/blank processing is forbidden)" % [v for v, _ in t.j["arms"]], fn=bd, where=prim.site(bd, b))
             if t.k == "call":
                 n = t.j.get("callee_name") or ""
-                if any(n.startswith(p) for p in BYTE_INTERP):
+                if any(n.startswith(p) for p in BYTE_INTERP) and n not in ("split_last",):     # split_last: decided by trim-only-delimiter below
                     ctx.ob("R1", "byte-interpretation-call:%s" % n, False, "ByteDelimitedArgumentReader::next calls %s: bytes other than the delimiter must reach the command unchanged" % (t.j.get("callee_inst") or n), fn=bd, where=prim.site(bd, b))
         ctx.floor("R1", "byte comparisons in the byte reader", ncmp, 1)
         ru = [(b, t) for b, t in bd.calls() if t.j.get("callee_name") == "read_until"]
@@ -64,25 +64,65 @@ def run(ctx):
             o = prim.origin_of_operand(bd, ru[0][1].args[1]).strip()
             ok = o.k == "field" and o.a == "delimiter"
         ctx.ob("R1", "split-at-delimiter", ok, "the byte reader must split with read_until(self.delimiter)", fn=bd, how="provenance slice")
-        # emitted bytes = buf (minus the trailing delimiter) through allow-listed conversions
+        # emitted bytes = the buffer filled by read_until (minus the trailing delimiter) through identity conversions
+        bufs = set()
+        for b0, t0 in ru:
+            if len(t0.args) >= 3:
+                ul = prim.user_local_behind(bd, t0.args[2])
+                if ul is not None:
+                    bufs.add(ul)
+        is_delim = lambda x: x.strip().k == "field" and x.strip().a == "delimiter"
+
+        def of_buf(x):
+            vs = [y.a.get("local") for y in x.walk() if y.k == "var"]
+            return bool(vs) and set(vs) <= bufs
+
+        def classify(fn_, alt, def_bb):
+            """whole | trimmed (only under last byte == delimiter, exactly one byte) | None"""
+            a_ = alt.strip()
+            names_ = [cn.a["name"] for cn in a_.call_nodes()]
+            atoms_ = prim.norm_guards(prim.dominating_guards(fn_, def_bb))
+            if not of_buf(a_):
+                return None, "not derived from the read_until buffer alone (%s)" % a_.fmt()[:80]
+            if set(names_) <= {"index", "deref", "as_slice", "as_ref", "borrow"} and not any(y.k == "agg" and "RangeTo" in str(y.a) or (y.k == "agg" and "RangeFrom" in str(y.a)) or (y.k == "agg" and str(y.a).endswith("Range")) for y in a_.walk()):
+                return "whole", ""
+            if "split_last" in names_ and set(names_) <= {"split_last", "deref", "as_slice", "as_ref", "borrow"}:
+                # (buf.split_last() as Some).0.1 — the part before the last byte
+                rest = any(y.k == "field" and str(y.a) == "1" for y in a_.walk()) and any(y.k == "variant" and str(y.a) == "Some" for y in a_.walk())
+                g_ = prim.atom_holds(atoms_, "eq", lambda x: any(cn.a["name"] == "split_last" for cn in x.call_nodes()) and any(y.k == "field" and str(y.a) == "0" for y in x.walk()) and of_buf(x), is_delim)
+                return ("trimmed", "") if rest and g_ is not None else (None, "split_last rest used without `last == self.delimiter` (%s)" % prim.guards_fmt(prim.dominating_guards(fn_, def_bb))[:120])
+            if names_.count("index") == 1 and any(y.k == "agg" and "RangeTo" in str(y.a) for y in a_.walk()) and set(names_) <= {"index", "len", "deref", "as_slice", "as_ref", "borrow"}:
+                one = any(cst.get("v") == 1 for cst in a_.consts()) and "len" in names_ and any(y.k == "bin" and y.a in ("Sub", "SubWithOverflow") for y in a_.walk())
+                g_ = prim.atom_holds(atoms_, "eq", lambda x: of_buf(x) and any(y.k == "index" or (y.k == "call" and y.a["name"] == "index") for y in x.walk()), is_delim) or \
+                    next((at for at in atoms_ if at["rel"] == "eq" and at["b"].strip().k == "const" and at["b"].strip().a.get("v") is True and any(is_delim(y) for y in prim.expand_single_def_vars(fn_, at["a"]).walk())), None)
+                return ("trimmed", "") if one and g_ is not None else (None, "range ..len-1 without `last == self.delimiter` or not exactly one byte")
+            return None, "the bytes are %s" % a_.fmt()[:100]
         for b in bd.reachable():
             for s in bd.blocks[b].stmts:
                 if s.rv is not None and s.rv.k == "agg" and s.rv.j.get("adt") == X + "Argument":
                     names = s.rv.j["fields"]
                     o = prim.origin_of_operand(bd, s.rv.ops[names.index("arg")])
                     bad = [c for c in o.callees() if c.split("::")[-1].split("<")[0] not in VERBATIM_OK]
-                    src_ok = any(x.k == "var" and x.a.get("name") in ("buf", "bytes") for x in o.walk())
-                    ctx.ob("R1", "bytes-verbatim", not bad and src_ok, "the argument is built from %s; only identity conversions of the buffer are allowed (offending calls: %s)" % (o.fmt()[:200], bad), fn=bd, where=prim.site(bd, b, s), how="provenance slice")
+                    leaves = [x for x in o.walk() if x.k == "var"]
+                    kinds_, why_ = [], []
+                    if len(leaves) == 1 and leaves[0].a.get("local") in bufs:
+                        kinds_.append("whole")
+                    elif len(leaves) == 1:
+                        for d_ in [d_ for d_ in prim.local_defs(bd).get(leaves[0].a["local"], []) if d_[1] != "partial"]:
+                            k_, w_ = classify(bd, prim._origin_of_def(bd, d_, 10, set()), d_[0])
+                            kinds_.append(k_)
+                            if w_:
+                                why_.append(w_)
+                    else:
+                        k_, w_ = classify(bd, o, b)
+                        kinds_.append(k_)
+                        if w_:
+                            why_.append(w_)
+                    okv = not bad and bool(kinds_) and None not in kinds_
+                    ctx.ob("R1", "bytes-verbatim", okv, "the argument is built from %s; only identity conversions of the read_until buffer are allowed (offending calls: %s; %s)" % (o.fmt()[:200], bad, "; ".join(why_)), fn=bd, where=prim.site(bd, b, s), how="provenance slice, per alternative")
+                    ctx.ob("R1", "trim-only-delimiter", okv and "whole" in kinds_, "the argument is the buffer %s; oracle: whole when the input ended without a delimiter, and without its last byte only when that byte equals the delimiter (exactly one byte)" % kinds_, fn=bd, where=prim.site(bd, b, s), how="per-alternative dominating guards (normal form)")
                     ko = prim.origin_of_operand(bd, s.rv.ops[names.index("kind")]).strip()
                     ctx.ob("R1", "byte-mode-kind", ko.k == "agg" and str(ko.a).endswith("HardTerminated"), "every -0/-d argument ends an input line (kind %s)" % ko.fmt(), fn=bd, where=prim.site(bd, b, s), how="constant field")
-        # the trimmed slice drops exactly one trailing byte, and only when it is the delimiter
-        for b, t in bd.calls():
-            if t.j.get("callee_name") == "index" and "RangeTo" in (t.j.get("callee_inst") or ""):
-                gs = prim.dominating_guards(bd, b)
-                ok = any(gd["bool"] is True and any(x.k == "field" and x.a == "delimiter" for x in gd["pred"].walk()) for gd in gs)
-                o = prim.origin_of_operand(bd, t.args[1])
-                ok2 = any(c.get("v") == 1 for c in o.consts()) and any(cc.endswith("::len") for cc in o.callees())
-                ctx.ob("R1", "trim-only-delimiter", ok and ok2, "the last byte may be dropped only when it equals the delimiter, and exactly one byte (range ..len-1); guards: %s; range: %s" % (prim.guards_fmt(gs), o.fmt()), fn=bd, where=prim.site(bd, b), how="dominating guard")
 
     # ---- R1 (cont.) every field of -0/-d input is an argument, the empty one included -----------------------------
     if bd is not None:
@@ -193,6 +233,19 @@ def run(ctx):
                         if o_.k == "bin" and o_.a == "Eq" and any(cc.get("v") == 10 for cc in o_.consts()):
                             c.append(l)
         locs["terminated_by_newline"] = c[0] if len(set(c)) == 1 else None
+    direct_kind = False
+    if locs["terminated_by_newline"] is None:
+        # no flag: the terminator kind itself is the state (a local of the ArgumentKind type set at the separator)
+        c = [l for l in range(len(ws.locals)) if _user(l) and ws.local_ty(l).endswith("ArgumentKind")]
+        if len(c) == 1:
+            locs["terminated_by_newline"] = c[0]
+            direct_kind = True
+    if locs["pending"] is None:
+        for b, t in ws.calls():
+            if t.j.get("callee_name") in ("take", "replace") and "mem" in (t.callee or "") and t.dest is not None:
+                for l2 in range(len(ws.locals)):
+                    if _user(l2) and ws.local_ty(l2) == "std::vec::Vec<u8>" and any(d_[0] == b or (d_[1] == "assign" and d_[2].rv is not None and d_[2].rv.k == "use" and d_[2].rv.ops[0].place is not None and d_[2].rv.ops[0].place.local == t.dest.local) for d_ in prim.local_defs(ws).get(l2, [])):
+                        locs["pending"] = l2
     if locs["i"] is None:
         c = C.scan_index(ws)
         if not c:
@@ -382,7 +435,10 @@ def run(ctx):
 
     # ---- R5 terminator kind -------------------------------------------------------------------------------
     tl = locs["terminated_by_newline"]
-    defs = [d for d in prim.local_defs(ws).get(tl, []) if d[0] in ws.reachable() and d[1] != "partial"]
+    if direct_kind:
+        _r5_direct(ctx, ws, tl, emits, locs, refill_guard)
+        tl = None
+    defs = [d for d in prim.local_defs(ws).get(tl, []) if d[0] in ws.reachable() and d[1] != "partial"] if tl is not None else []
     kinds = []
     for d in defs:
         o = prim._origin_of_def(ws, d, 6, set()).strip()
@@ -395,7 +451,8 @@ def run(ctx):
             kinds.append("newline-test" if sep else "newline-test-outside-separator-arm")
         else:
             kinds.append("other:" + o.fmt())
-    ctx.ob("R5", "terminator-flag-writers", sorted(kinds) == ["init-false", "newline-test"],
+    if tl is not None:
+      ctx.ob("R5", "terminator-flag-writers", sorted(kinds) == ["init-false", "newline-test"],
            "terminated_by_newline writers: %s; oracle: initial false, and `c == b'\\n'` for the blank that ends the argument — nothing else (a line ending in a blank continues on the next line)" % kinds, fn=ws, how="local writers + dominating guard")
     for b, s in emits:
         names = s.rv.j["fields"]
@@ -411,7 +468,11 @@ def run(ctx):
                     pr = gd["pred"].strip()
                     if pr.k == "var" and pr.a.get("local") == tl and gd["bool"] is not None and o.k == "agg":
                         table[gd["bool"]] = str(o.a).split("::")[-1]
-        ctx.ob("R5", "kind-from-flag", table == {True: "HardTerminated", False: "SoftTerminated"}, "argument kind selected as %s; oracle {newline: HardTerminated, other blank: SoftTerminated}" % table, fn=ws, where=prim.site(ws, b, s), how="dominating guard table")
+        if tl is None:
+            # direct form: the kind field is the state local itself (decided by _r5_direct)
+            ctx.ob("R5", "kind-from-flag", kl == locs["terminated_by_newline"] or any(x.k == "var" and x.a.get("local") == locs["terminated_by_newline"] for x in ko.walk()), "argument kind is %s; oracle: the terminator state local, unchanged" % ko.fmt(), fn=ws, where=prim.site(ws, b, s), how="provenance slice")
+        else:
+          ctx.ob("R5", "kind-from-flag", table == {True: "HardTerminated", False: "SoftTerminated"}, "argument kind selected as %s; oracle {newline: HardTerminated, other blank: SoftTerminated}" % table, fn=ws, where=prim.site(ws, b, s), how="dominating guard table")
         ao = prim.origin_of_operand(ws, s.rv.ops[names.index("arg")])
         bad = [c for c in ao.callees() if c.split("::")[-1].split("<")[0] not in VERBATIM_OK]
         ctx.ob("R5", "argument-bytes-from-result", not bad and any(x.k == "var" and x.a.get("local") == locs["result"] for x in ao.walk()), "argument bytes come from %s (offending calls %s)" % (ao.fmt()[:160], bad), fn=ws, where=prim.site(ws, b, s), how="provenance slice")
@@ -432,7 +493,8 @@ def run(ctx):
             if st.rv is not None and st.rv.k == "agg" and st.rv.j.get("adt") == "std::result::Result" and st.rv.j.get("variant") == "Err" and st.lhs.is_local() and st.lhs.local == 0:
                 gs = prim.dominating_guards(ws, b)
                 in_quote = any(any(y.k == "variant" and str(y.a) == "Quote" for y in gd["pred"].walk()) or (prim.discr_type_of_switch(ws, gd["bb"]) or "").endswith("Escape") for gd in gs)
-                nl = any(ws.blocks[gd["bb"]].term.j.get("discr_ty") == "u8" and gd["labels"] == [10] for gd in gs)
+                nl = any(ws.blocks[gd["bb"]].term.j.get("discr_ty") == "u8" and gd["labels"] == [10] for gd in gs) or \
+                    prim.atom_holds(prim.norm_guards(gs), "eq", lambda x: x.strip().k != "const", lambda x: x.strip().k == "const" and x.strip().a.get("v") == 10) is not None
                 if in_quote and nl:
                     qerr += 1
     ctx.ob("R6", "quote-ends-at-newline", qerr >= 1, "an Err return under (inside a quote, byte == newline): %d site(s); oracle: a quote left open at the end of a line is reported, it does not swallow the newline" % qerr, fn=ws, how="dominating guards")
@@ -460,7 +522,9 @@ def run(ctx):
                        "%s is selected under delimiter-discriminant %s; oracle: byte reader iff a delimiter was chosen" % (prim.short(c), lab), fn=dx, where=prim.site(dx, b), how="dominating guard")
                 if "ByteDelimited" in c:
                     o = prim.origin_of_operand(dx, t.args[1])
-                    ctx.ob("R2", "byte-reader-delimiter", "delimiter" in o.fmt() and any(cc.endswith("normalize_options") for cc in o.callees()), "the byte reader is given %s" % o.fmt()[:160], fn=dx, where=prim.site(dx, b), how="provenance slice")
+                    # the fourth component of normalize_options' result (by position), its Some payload
+                    from_no = any(cc.endswith("normalize_options") for cc in o.callees()) and any(x.k == "field" and str(x.a) == "3" and any(cn.a["name"] == "normalize_options" for cn in x.call_nodes()) for x in o.walk())
+                    ctx.ob("R2", "byte-reader-delimiter", ("delimiter" in o.fmt() or from_no) and any(cc.endswith("normalize_options") for cc in o.callees()), "the byte reader is given %s" % o.fmt()[:160], fn=dx, where=prim.site(dx, b), how="provenance slice")
     no = ctx.fn("R2", X + "normalize_options")
     if no is not None:
         _delimiter_table(ctx, no)
@@ -594,8 +658,37 @@ def _delim_brole(no):
 
 
 def _delim_srole(no, dl):
+    # locals the chosen delimiter flows through on its way into `delimiter` (`Some(if c {0} else {d})` goes through a
+    # temporary): an assignment of a constant or of the given delimiter to any of them is the choice being made
+    feed = set(dl)
+    changed = True
+    while changed:
+        changed = False
+        for l in list(feed):
+            for bb, kind, obj in prim.local_defs(no).get(l, []):
+                if kind != "assign" or obj.rv is None:
+                    continue
+                rv = obj.rv
+                ops = rv.ops if rv.k in ("use", "agg") else []
+                if rv.k == "agg" and not str(rv.j.get("adt", "")).endswith("Option"):
+                    ops = []
+                for o_ in ops:
+                    if o_.place is not None and o_.place.is_local() and no.local_name(o_.place.local) is None and o_.place.local not in feed and no.local_ty(o_.place.local) in ("u8", "std::option::Option<u8>"):
+                        feed.add(o_.place.local)
+                        changed = True
+
     def srole(f, bb, s):
-        if s.lhs is not None and s.lhs.is_local() and s.lhs.local in dl and s.rv is not None:
+        if s.lhs is not None and s.lhs.is_local() and s.lhs.local in feed and s.rv is not None:
+            rv = s.rv
+            if rv.k in ("use", "agg") and rv.ops and not (rv.k == "agg" and not str(rv.j.get("adt", "")).endswith("Option")):
+                if rv.k == "agg" and rv.j.get("variant") == "None":
+                    return "set:other"
+                op = rv.ops[0] if rv.ops else None
+                if op is not None and op.place is not None and op.place.is_local() and op.place.local in feed:
+                    return None                     # the value moves on towards `delimiter`
+                if op is not None and op.kind == "const":
+                    v = op.const_value()
+                    return "set:nul" if v == 0 else "set:const%s" % v
             o = prim._origin_of_def(f, (bb, "assign", s), 8, set()).strip()
             txt = o.fmt()
             if o.k == "agg" and str(o.a).endswith("Option::Some"):
@@ -612,6 +705,8 @@ def _delim_srole(no, dl):
                     vals, nonconst = C.const_return(cf)
                     if vals == {10} and not nonconst:
                         return "set:newline-iff-replace"
+            if s.lhs.local not in dl and o.k != "const":
+                return "set:given"
             return "set:other"
         return None
     return srole
@@ -639,3 +734,42 @@ def _root_user_local(f, op, hops=8):
         if x.k == "var" and x.a.get("name") is not None:
             return x.a["local"]
     return None
+
+
+def _r5_direct(ctx, ws, kl, emits, locs, refill_guard):
+    """the terminator kind kept directly in a local: Soft initially, Hard exactly when the separator that ends the argument
+    is a newline, and nothing else writes it"""
+    defs = [d for d in prim.local_defs(ws).get(kl, []) if d[0] in ws.reachable() and d[1] != "partial"]
+    kinds = []
+    hard_blocks = []
+    for d in defs:
+        o = prim._origin_of_def(ws, d, 6, set()).strip()
+        name = str(o.a).split("::")[-1] if o.k == "agg" else None
+        if name == "SoftTerminated":
+            # the initial value: before the scanning loop (dominates the loop head), never inside it
+            kinds.append("init-soft" if refill_guard is not None and ws.dominates(d[0], refill_guard) and refill_guard not in ws.reach_from([d[0]]) - {refill_guard} or (refill_guard is not None and ws.dominates(d[0], refill_guard) and d[0] != refill_guard and not ws.dominates(refill_guard, d[0])) else "soft-inside-loop")
+        elif name == "HardTerminated":
+            atoms = prim.norm_guards(prim.dominating_guards(ws, d[0]))
+            nl = prim.atom_holds(atoms, "eq", lambda x: x.strip().k != "const", lambda x: x.strip().k == "const" and x.strip().a.get("v") == 10)
+            gs = prim.dominating_guards(ws, d[0])
+            sep = any(ws.blocks[gd["bb"]].term.j.get("discr_ty") == "u8" and set(l for l in gd["labels"] if isinstance(l, int)) >= {10} and set(l for l in gd["labels"] if isinstance(l, int)) <= set(SEPARATORS) for gd in gs)
+            leaves_loop = refill_guard is None or refill_guard not in ws.reach_from([d[0]])
+            kinds.append("newline=>hard" if nl is not None and sep and leaves_loop else "hard:%s%s%s" % ("" if nl is not None else " not under byte==newline", "" if sep else " outside the separator arm", "" if leaves_loop else " and the scan goes on"))
+            hard_blocks.append((d[0], nl))
+        else:
+            kinds.append("other:" + o.fmt()[:60])
+    ctx.ob("R5", "terminator-flag-writers", sorted(kinds) == ["init-soft", "newline=>hard"],
+           "terminator kind writers: %s; oracle: SoftTerminated before the loop, HardTerminated under `byte == newline` in the separator arm on the way out of the loop — nothing else" % kinds, fn=ws, how="local writers + dominating guards (normal form)")
+    # a newline that ends the argument cannot leave the loop without the Hard write
+    for hb, nl in hard_blocks:
+        if nl is None:
+            continue
+        gb = nl["gd"]["bb"]
+        ok = True
+        for tgt, ats in prim.edge_atoms(ws, gb):
+            is_nl = prim.atom_holds(ats, "eq", lambda x: x.strip().k != "const", lambda x: x.strip().k == "const" and x.strip().a.get("v") == 10) is not None
+            if is_nl:
+                for eb, es in emits:
+                    if not prim.must_pass(ws, tgt, [eb], [hb]):
+                        ok = False
+        ctx.ob("R5", "newline-always-hard", ok, "from `byte == newline` (block %d) the argument is delivered only after the HardTerminated write" % gb, fn=ws, where=prim.site(ws, hb), how="must-pass")
